@@ -83,6 +83,8 @@ func c13Scenarios() []*core.Scenario {
 			Threads: []core.ThreadSpec{{Name: "writer", Ops: []core.Op{{K: "D", Min: 3, Max: 7}, a(3, 1, 4)}}, {Name: "reader", Ops: []core.Op{{K: "GL", Idx: 5}, {K: "GL", Idx: 1}}}}},
 		{Name: "two readers pinning the state across a head truncation", Cfg: seg, Prop: "C13", Setup: six,
 			Threads: []core.ThreadSpec{{Name: "writer", Ops: []core.Op{{K: "D", Min: 1, Max: 3}}}, {Name: "reader1", Ops: []core.Op{{K: "GL", Idx: 1}}}, {Name: "reader2", Ops: []core.Op{{K: "GL", Idx: 3}, {K: "FI"}}}}},
+		{Name: "head truncation deleting two segments, then Close || reader pinning the old state", Cfg: seg, Prop: "C13", Setup: six, Closer: true,
+			Threads: []core.ThreadSpec{{Name: "writer", Ops: []core.Op{{K: "D", Min: 1, Max: 6}, {K: "C"}}}, {Name: "reader", Ops: []core.Op{{K: "GL", Idx: 2}}}}},
 	}
 }
 
